@@ -28,7 +28,7 @@ func init() { register(&stream{name: "ctx", gen: genCtx, run: runCtx}) }
 
 // ---------------------------------------------------------------- generator
 
-const ctxOps = "ddiirnmovhltLWwcIT"
+const ctxOps = "ddiirnmovvhltLWwcITMM"
 
 func genCtx(r *Rng, tier string, n int, emit func(string)) {
 	for c := 0; c < n; c++ {
@@ -47,7 +47,7 @@ func genCtx(r *Rng, tier string, n int, emit func(string)) {
 		withHost := r.Chance(50)
 		for i := range ops {
 			ops[i] = string(ctxOps[r.Intn(len(ctxOps))])
-			if ops[i] == "v" && !withHost {
+			if (ops[i] == "v" || ops[i] == "M") && !withHost {
 				ops[i] = "i"
 			}
 		}
@@ -344,9 +344,13 @@ func (run *ctxRun) op(op byte, k int) string {
 		}
 		return "-"
 	case 'V':
-		// the hostname route is registered (tree replaced, new pool); idempotent
+		// the hostname routes are registered (tree replaced, new pool); idempotent. The second one overlaps the first
+		// below the consumed {sub} label, so that a Host like h.examplex.com is matched after a backtrack.
 		if !run.r.Has("GET", "{sub}.example.com/hv/{id}") {
 			if _, err := run.r.Handle("GET", "{sub}.example.com/hv/{id}", ctxRouteHandler); err != nil {
+				return "bad-op"
+			}
+			if _, err := run.r.Handle("GET", "{sub}.{dom}.com/hv/{id}", ctxRouteHandler); err != nil {
 				return "bad-op"
 			}
 		}
@@ -369,6 +373,14 @@ func (run *ctxRun) op(op byte, k int) string {
 	case 'o':
 		p.method, p.path, p.scope = "OPTIONS", "/u/"+tok, fox.OptionsHandler
 		wantCode = 200
+	case 'M':
+		// 405 below a hostname: the Allow loop walks the hostname routes lazily and backtracks after the {sub} label
+		if !run.r.Has("GET", "{sub}.example.com/hv/{id}") {
+			return "bad-op"
+		}
+		p.method, p.path, p.scope = "POST", "/hv/"+tok, fox.NoMethodHandler
+		p.host = "h" + tok + ".examplex.com"
+		wantCode = 405
 	case 'v':
 		if !run.r.Has("GET", "{sub}.example.com/hv/{id}") {
 			return "bad-op"
